@@ -186,6 +186,7 @@ func vfH3FSection(kind string, initial bool) []byte {
 }
 
 const vfH3FOverVariants = 5
+const vfH3FTruncVariants = 6
 
 // vfH3FBytes renders the abstract frames as octets.  variant selects how "over" and "trunc"
 // shapes are realised.
@@ -242,7 +243,8 @@ func vfH3FBytes(rnd *rand.Rand, c vfH3FCase, variant int) []byte {
 				}
 			}
 		case "H":
-			sec := vfH3FSection(c.Kind, !seenH)
+			initial := !seenH
+			sec := vfH3FSection(c.Kind, initial)
 			seenH = true
 			b = vfH3FVarint(b, uint64(frameTypeHeaders), vfH3FPadded(rnd, uint64(frameTypeHeaders)))
 			switch f.Sh {
@@ -269,9 +271,32 @@ func vfH3FBytes(rnd *rand.Rand, c vfH3FCase, variant int) []byte {
 					b = append(b, 0x00, 0x00, 0x00, 0x00, 0x00, 0x00)
 				}
 			case "trunc":
-				b = vfH3FVarint(b, uint64(len(sec)), 0)
-				if variant%2 == 0 {
+				// truncation by exactly one octet at every structural boundary of the payload,
+				// and the bare frame header
+				tv := variant % vfH3FTruncVariants
+				if initial && (tv == 3 || tv == 4) {
+					// a leading HEADERS frame without its mandatory pseudo-header fields is also a
+					// malformed message: which of the two errors wins is not C35's business
+					tv = 2
+				}
+				switch tv {
+				case 0: // the last octet of the section (inside a string literal) is missing
+					b = vfH3FVarint(b, uint64(len(sec)), 0)
 					b = append(b, sec[:len(sec)-1]...)
+				case 1: // nothing behind the length varint
+					b = vfH3FVarint(b, uint64(len(sec)), 0)
+				case 2: // every field line complete, the frame claims one octet more
+					b = vfH3FVarint(b, uint64(len(sec)+1), 0)
+					b = append(b, sec...)
+				case 3: // the section prefix complete, the frame claims one octet more
+					b = vfH3FVarint(b, 3, 0)
+					b = append(b, 0x00, 0x00)
+				case 4: // one whole field line behind the prefix, the frame claims one octet more
+					b = vfH3FVarint(b, 4, 0)
+					b = append(b, 0x00, 0x00, 0xc0|25) // static 25
+				default: // a length varint of a string is the last octet delivered; the string is missing
+					b = vfH3FVarint(b, uint64(len(sec)+3), 0)
+					b = append(append(b, sec...), 0x21, 0x61) // literal name "a", value length octet missing
 				}
 			}
 		}
@@ -291,6 +316,8 @@ func vfH3FVariants(c vfH3FCase) int {
 	for _, f := range c.Frames {
 		if f.Sh == "over" && f.Ty == "H" {
 			n = max(n, vfH3FOverVariants)
+		} else if f.Sh == "trunc" && f.Ty == "H" {
+			n = max(n, vfH3FTruncVariants)
 		} else if f.Sh != "fit" {
 			n = max(n, 2)
 		}
